@@ -26,8 +26,9 @@ import (
 type beh struct {
 	gocore.Beh
 	Bsel struct {
-		Mode string `json:"mode"`
-		Bits []bool `json:"bits"`
+		Mode  string `json:"mode"`
+		Bits  []bool `json:"bits"`
+		Calls string `json:"calls"` // how the requests are spread over SetBreakpoints calls (DebugGen.tla CallShapes)
 	} `json:"bsel"`
 	Policy []string          `json:"policy"`
 	SetAt  string            `json:"setat"`
@@ -58,6 +59,7 @@ type job struct {
 	FLast   int      `json:"flast"`
 	Policy  []string `json:"policy"`
 	SetAt   string   `json:"set_at"`
+	Calls   string   `json:"calls"`
 }
 
 func init() {
@@ -68,7 +70,7 @@ func init() {
 		out := make([]session, len(js))
 		for x, j := range js {
 			done := make(chan struct{})
-			go func() { defer close(done); out[x] = debugRun(j.Src, j.Breaks, j.FBreaks, j.Policy, 300, j.SetAt) }()
+			go func() { defer close(done); out[x] = debugRun(j.Src, j.Breaks, j.FBreaks, j.Policy, 300, j.SetAt, j.Calls) }()
 			select {
 			case <-done:
 			case <-time.After(40 * time.Second):
@@ -180,7 +182,7 @@ func run(c *fw.Ctx) error {
 			skipped++
 			continue
 		}
-		j := job{Src: srcs[i], Policy: b.Policy, SetAt: b.SetAt}
+		j := job{Src: srcs[i], Policy: b.Policy, SetAt: b.SetAt, Calls: b.Bsel.Calls}
 		on := map[int]bool{}
 		switch b.Bsel.Mode {
 		case "all":
